@@ -71,7 +71,7 @@ def step (st : St) (t : List String) : St × String :=
   -- `st` is taken apart at once and never mentioned again, so that the hash maps inside the model
   -- state stay uniquely referenced and are updated in place (10^5-entry histories)
   let ⟨s, master⟩ := st
-  let t := match t with | ["adds", h] => ["add", h] | _ => t     -- the two `strview` flavours of `Add`
+  let t := match t with | ["adds", h] => ["add", h] | ["addp", h] => ["add", h] | _ => t     -- the three `strview` flavours of `Add`
   match t with
   | ["dict"] => (⟨init, false⟩, "ok " ++ obs (init : State String))
   | ["master"] =>
